@@ -81,6 +81,20 @@ func (self *Interpreter) callFunc(span errors.Span, val value.Value, args []ast.
 	case value.ClosureValueKind:
 		closure := val.(value.ValueClosure)
 
+		// The arguments are evaluated in the scopes of the caller, before any parameter is bound:
+		// otherwise `f(b, a)` would read the parameter `a` (already bound to the value of `b`) for its second argument.
+		argValues := make(map[string]*value.Value)
+		for _, arg := range args {
+			argVal, i := self.expression(arg.Expression)
+			if i != nil {
+				return nil, i
+			}
+
+			// Arguments are passed by value: the parameter must not share the cell of the caller's variable.
+			cell := *argVal
+			argValues[arg.Name] = &cell
+		}
+
 		// push a scope into the closure
 		closure.Scopes = append(closure.Scopes, make(map[string]*value.Value))
 		self.callStackSize++
@@ -103,15 +117,8 @@ func (self *Interpreter) callFunc(span errors.Span, val value.Value, args []ast.
 			self.currentModule.scopes = scopesPrev
 		}()
 
-		for _, arg := range args {
-			argVal, i := self.expression(arg.Expression)
-			if i != nil {
-				return nil, i
-			}
-
-			// Arguments are passed by value: the parameter must not share the cell of the caller's variable.
-			cell := *argVal
-			closure.Scopes[len(closure.Scopes)-1][arg.Name] = &cell
+		for name, argVal := range argValues {
+			closure.Scopes[len(closure.Scopes)-1][name] = argVal
 		}
 
 		val, i := self.block(closure.Block, false)
